@@ -225,6 +225,132 @@ def enum_normal_forms(seed):
             "cases": cases, "failures": fails}
 
 
+# --------------------------------- PackageRestriction: the hop from package to value ----
+def t_package_restriction(ex):
+    """PackageRestriction(attr, child, negate): construction keeps the child and the flag it was given, and match is the child's match of
+    the pulled attribute xor negate (a missing attribute: negate)"""
+    import pkgcore.restrictions.packages as PK
+    from pkgcore.restrictions import restriction as R
+    from snakeoil import klass
+    PFILE = "src/pkgcore/restrictions/packages.py"
+    P = "C06.PackageRestriction"
+    m = theory.ufun("match_of", Rst.sort, Val.sort, z3.BoolSort())
+    child, attrv = Rst.fresh("child"), Val.fresh("attr_value")
+    negate = KBool.fresh("negate")
+    missing = KBool.fresh("attribute_missing")
+    it = interp(ex, P, m, {})
+    it.ref_attrs[("Restriction", "type")] = lambda it_, r: R.value_type
+    me = SObj(PK.PackageRestriction, {})
+    it.models[PK.PackageRestriction._parse_attr] = lambda it_, self_, attr: None   # attribute path bookkeeping, not part of the truth value
+    out = call(it, it.target(PFILE, "PackageRestriction.__init__"), me, "category", child, negate)
+    ex.oblige(f"{P}.__init__.raises.nothing", not out.raised, kind="exceptional-postcondition")
+    if out.raised:
+        return
+    got_child, got_neg = me.fields.get("restriction"), me.fields.get("negate")
+    ex.oblige(f"{P}.__init__.ensures.keeps_the_child_it_was_given", SBool(got_child.t == child.t) if hasattr(got_child, "t") and got_child.t.sort() == child.t.sort() else False)
+    ex.oblige(f"{P}.__init__.ensures.keeps_negate", SBool(got_neg.t == negate.t) if isinstance(got_neg, SBool) else (False if not isinstance(got_neg, bool) else SBool(negate.t == got_neg)))
+    me2 = SObj(PK.PackageRestriction, {"restriction": child, "negate": negate})
+    pkg = KRef("Package").fresh("pkg")
+
+    class _AttrValue:
+        """the pulled attribute: a concrete token (so that `attr is sentinel` is decidable: it is not the sentinel), standing for attr_value"""
+    token = _AttrValue()
+
+    def pull(it_, self_, pkg_):
+        if ex.branch(missing):
+            return klass.sentinel
+        return token
+    it2 = interp(ex, P, m, {})
+    it2.ref_attrs[("Restriction", "match")] = lambda it_, r: Model(lambda it__, v, _r=r: SBool(m(_r.t, attrv.t if v is token else v.t)), "restriction.match")
+    it2.models[PK.PackageRestriction._pull_attr] = pull   # the attribute value or the sentinel
+    out = call(it2, it2.target(PFILE, "PackageRestriction.match"), me2, pkg)
+    ex.oblige(f"{P}.match.raises.nothing", not out.raised, kind="exceptional-postcondition")
+    if out.raised:
+        return
+    r = out.value
+    rt = r.t if isinstance(r, SBool) else z3.BoolVal(bool(r))
+    want = z3.If(missing.t, negate.t, z3.Xor(m(child.t, attrv.t), negate.t))
+    ex.oblige(f"{P}.match.ensures.child_match_xor_negate", SBool(rt == want))
+
+
+def enum_mixed_trees(seed):
+    """random trees that mix package-level and value-level groups (all-of / any-of / exactly-one-of / at-most-one-of, each possibly negated,
+    0..3 members, depth <= 4) over category / package / version / USE leaves built with the real constructors; match() on every package of a
+    small universe against the propositional formula recorded while the tree was built (a leaf's own match is the atom of the formula)"""
+    import random
+    import types
+    from pkgcore.restrictions import boolean, packages, values, restriction
+    rnd = random.Random(seed + 606)
+    universe = [types.SimpleNamespace(category=c, package=p, fullver=v, use=frozenset(u))
+                for c in ("sys-apps", "dev-util") for p in ("sed", "gawk") for v in ("1.0", "2.0-r1") for u in ((), ("nls",), ("nls", "acl"))]
+    leafmakers = {
+        "category": [lambda n: values.StrExactMatch("sys-apps", negate=n), lambda n: values.StrGlobMatch("dev", negate=n), lambda n: values.StrRegex("^sys", negate=n)],
+        "package": [lambda n: values.StrExactMatch("sed", negate=n), lambda n: values.StrGlobMatch("awk", prefix=False, negate=n)],
+        "fullver": [lambda n: values.StrExactMatch("1.0", negate=n), lambda n: values.StrGlobMatch("2.", negate=n)],
+        "use": [lambda n: values.ContainmentMatch(("nls",), negate=n), lambda n: values.ContainmentMatch(("acl", "nls"), match_all=True, negate=n),
+                lambda n: values.ContainmentMatch(("acl", "x"), negate=n)],
+    }
+
+    def combine(kind, neg, fs):
+        def f(x):
+            c = sum(1 for g in fs if g(x))
+            if kind == "and":
+                r = c == len(fs)
+            elif kind == "or":
+                r = c > 0
+            elif kind == "one":
+                r = c == 1 or not fs
+            else:
+                r = c <= 1
+            return r != neg
+        return f
+
+    def value_tree(attr, depth):
+        if depth == 0 or rnd.random() < 0.45:
+            leaf = rnd.choice(leafmakers[attr])(rnd.random() < 0.3)
+            return leaf, (lambda v, _l=leaf: bool(_l.match(v))), str(leaf)
+        kind = rnd.choice(("and", "or"))
+        neg = rnd.random() < 0.4
+        n = rnd.choice((0, 1, 1, 1, 2, 2, 3))
+        kids = [value_tree(attr, depth - 1) for _ in range(n)]
+        cls = values.AndRestriction if kind == "and" else values.OrRestriction
+        node = cls(*[k[0] for k in kids], negate=neg)
+        return node, combine(kind, neg, [k[1] for k in kids]), f"{'not ' if neg else ''}{kind}({', '.join(k[2] for k in kids)})"
+
+    def pkg_tree(depth):
+        if depth == 0 or rnd.random() < 0.4:
+            attr = rnd.choice(list(leafmakers))
+            vt, vf, vs = value_tree(attr, min(depth, 2))
+            neg = rnd.random() < 0.3
+            node = packages.PackageRestriction(attr, vt, negate=neg)
+            return node, (lambda pkg, _a=attr, _f=vf, _n=neg: _f(getattr(pkg, _a)) != _n), f"{'not ' if neg else ''}{attr}:{vs}"
+        kind = rnd.choice(("and", "or", "one", "atmost"))
+        neg = rnd.random() < 0.35
+        n = rnd.choice((0, 1, 1, 2, 2, 3))
+        kids = [pkg_tree(depth - 1) for _ in range(n)]
+        cls = {"and": packages.AndRestriction, "or": packages.OrRestriction, "one": boolean.JustOneRestriction, "atmost": boolean.AtMostOneOfRestriction}[kind]
+        kw = {} if kind in ("and", "or") else {"node_type": restriction.package_type}
+        node = cls(*[k[0] for k in kids], negate=neg, **kw)
+        return node, combine(kind, neg, [k[1] for k in kids]), f"{'not ' if neg else ''}{kind}[{'; '.join(k[2] for k in kids)}]"
+    cases, fails = 0, []
+    for _ in range(700):
+        node, f, text = pkg_tree(4)
+        for pkg in universe:
+            cases += 1
+            try:
+                got = bool(node.match(pkg))
+            except Exception as e:
+                got = f"{type(e).__name__}: {e}"
+            want = f(pkg)
+            if got != want:
+                if len(fails) < 4:
+                    fails.append({"model": {"tree": text, "package": f"{pkg.category}/{pkg.package}-{pkg.fullver} use={sorted(pkg.use)}"},
+                                  "detail": f"match() of {text} on {pkg.category}/{pkg.package}-{pkg.fullver} use={sorted(pkg.use)} is {got}; the formula is {want}"})
+                break
+    return {"name": "C06.mixed_trees.bounded_enumeration", "bound": "700 random trees of depth <= 4 mixing package-level all-of / any-of / exactly-one-of / at-most-one-of and value-level "
+            "all-of / any-of groups (0..3 members, negation anywhere) over 10 category / package / version / USE leaves; every one of 24 packages", "cases": cases, "failures": fails}
+
+
 def tasks():
     return [
         Task("C06.AndOr.match", t_and_or, [(FILE, "AndRestriction.match"), (FILE, "OrRestriction.match")]),
@@ -234,6 +360,8 @@ def tasks():
         Task("C06.normal_forms", None, [(FILE, n) for n in ("AndRestriction.iter_dnf_solutions", "AndRestriction.cnf_solutions",
                                                            "OrRestriction.iter_dnf_solutions", "OrRestriction.cnf_solutions")],
              enumerate=enum_normal_forms),
+        Task("C06.PackageRestriction", t_package_restriction, [("src/pkgcore/restrictions/packages.py", "PackageRestriction.__init__"),
+                                                                ("src/pkgcore/restrictions/packages.py", "PackageRestriction.match")], enumerate=enum_mixed_trees),
     ]
 
 
